@@ -19,6 +19,7 @@ import (
 	"slices"
 	"strings"
 	"time"
+	"unicode/utf8"
 
 	"github.com/saucelabs/forwarder/hostsfile"
 	"github.com/saucelabs/forwarder/httplog"
@@ -30,6 +31,7 @@ import (
 	"github.com/saucelabs/forwarder/pac"
 	"github.com/saucelabs/forwarder/ruleset"
 	"go.uber.org/multierr"
+	"golang.org/x/net/idna"
 	"golang.org/x/sync/errgroup"
 )
 
@@ -411,6 +413,9 @@ func (hp *HTTPProxy) middlewareStack() (martian.RequestResponseModifier, *martia
 	// Wrap stack in a group so that we can run security checks before the httpspec modifiers.
 	topg := fifo.NewGroup()
 
+	// Must be first: the checks below look at the host the request is going to be sent to.
+	topg.AddRequestModifier(martian.RequestModifierFunc(asciiHost))
+
 	if len(hp.config.AllowTimeFrame) > 0 {
 		for _, entry := range hp.config.AllowTimeFrame {
 			hp.log.Info("Adding AllowTimeFrame entry", "weekday", entry.Weekday.String(), "hourStart", entry.HourStart, "hourEnd", entry.HourEnd)
@@ -573,6 +578,35 @@ func (hp *HTTPProxy) injectKerberosUpstreamProxyAuthorizationHeader() martian.Re
 	})
 }
 
+// asciiHost replaces a host name that is not ASCII with the name the transport dials and sends in the Host
+// field: the IDNA mapping turns, among others, fullwidth letters and ideographic full stops into their ASCII
+// counterparts ("ｌocalhost", "127。0。0。1"). Localhost denial, deny-domains, direct-domains and
+// mitm-domains must judge that name, not the spelling.
+func asciiHost(req *http.Request) error {
+	host := req.URL.Hostname()
+	ascii := true
+	for i := 0; i < len(host); i++ {
+		if host[i] >= utf8.RuneSelf {
+			ascii = false
+			break
+		}
+	}
+	if ascii {
+		return nil
+	}
+
+	a, err := idna.Lookup.ToASCII(host)
+	if err != nil {
+		return nil //nolint:nilerr // The transport refuses the name, nothing is dialed.
+	}
+	if port := req.URL.Port(); port != "" {
+		a = net.JoinHostPort(a, port)
+	}
+	req.URL.Host = a
+
+	return nil
+}
+
 func (hp *HTTPProxy) denyLocalhost() martian.RequestModifier {
 	return martian.RequestModifierFunc(func(req *http.Request) error {
 		if hp.isLocalhost(req.URL.Hostname()) {
@@ -623,6 +657,10 @@ func (hp *HTTPProxy) isLocalhost(host string) bool {
 
 	if slices.Contains(hp.localhost, host) {
 		return true
+	}
+	// An IPv6 zone does not change which host the address belongs to.
+	if i := strings.IndexByte(host, '%'); i >= 0 {
+		host = host[:i]
 	}
 	// The unspecified address is dialed as the local host, in any of its spellings (0.0.0.0, ::0, ::ffff:0.0.0.0, ...).
 	if ip := net.ParseIP(host); ip != nil && (ip.IsLoopback() || ip.IsUnspecified()) {
